@@ -47,7 +47,7 @@ pub fn init_set(interp: &mut Interpreter) {
     interp
         .set_prototype
         .borrow_mut()
-        .set_property(constructor_key, JsValue::Object(constructor.clone()));
+        .define_builtin_property(constructor_key, JsValue::Object(constructor.clone()));
 
     // Add Symbol.species getter
     interp.register_species_getter(&constructor);
@@ -75,7 +75,7 @@ pub fn set_constructor(
             entries: index_set_new(),
         };
         obj.prototype = Some(interp.set_prototype.clone());
-        obj.set_property(size_key, JsValue::Number(0.0));
+        obj.define_builtin_property(size_key, JsValue::Number(0.0));
     }
 
     // If an iterable is passed (an array, a string, a Set, a generator, ...), add its elements
